@@ -751,7 +751,7 @@ def mpc_psi0(z, prec, rnd=round_fast):
     # Euler-Maclaurin remainder sum
     z2 = mpc_square(z, wp)
     t = mpc_one
-    prev = mpc_zero
+    prevsz = finf
     k = 1
     eps = mpf_shift(fone, -wp+2)
     while 1:
@@ -760,9 +760,11 @@ def mpc_psi0(z, prec, rnd=round_fast):
         term = mpc_mpf_div(bern, mpc_mul_int(t, 2*k, wp), wp)
         s = mpc_sub(s, term, wp)
         szterm = mpc_abs(term, 10)
-        if k > 2 and mpf_le(szterm, eps):
+        # Stop at the target accuracy, or at the smallest term of the
+        # asymptotic series (as mpf_psi0 does) if that is reached first
+        if k > 2 and (mpf_le(szterm, eps) or mpf_le(prevsz, szterm)):
             break
-        prev = term
+        prevsz = szterm
         k += 1
     return s
 
@@ -818,6 +820,7 @@ def mpc_psi(m, z, prec, rnd=round_fast):
     magn = mpc_abs(s, 10)
     magn = magn[2]+magn[3]
     eps = mpf_shift(fone, magn-wp+2)
+    prevsz = finf
     while 1:
         zm = mpc_mul(zm, z2, wp)
         bern = mpf_bernoulli(2*k, wp)
@@ -826,8 +829,9 @@ def mpc_psi(m, z, prec, rnd=round_fast):
         term = mpc_mul_mpf(zm, scal, wp)
         s = mpc_add(s, term, wp)
         szterm = mpc_abs(term, 10)
-        if k > 2 and mpf_le(szterm, eps):
+        if k > 2 and (mpf_le(szterm, eps) or mpf_le(prevsz, szterm)):
             break
+        prevsz = szterm
         #print k, to_str(szterm, 10), to_str(eps, 10)
         a *= (m+2*k)*(m+2*k+1)
         b *= (2*k+1)*(2*k+2)
